@@ -7,6 +7,7 @@ import RbV.Model.Transform
 import RbV.Model.SampledGet
 import RbV.Model.LFMulti
 import RbV.Model.PosTypes
+import RbV.Lemmas.SaisMain
 /-!
 # C03 — suffix array = sorted permutation of all suffixes; LCP; shortest unique substrings
 
@@ -194,15 +195,11 @@ theorem sampled_get_exact_all (t sa : List Nat) (s k m : Nat) (hc : checkSA t sa
   LFMulti.sampled_get_correct_multi t sa hc hmin s k hs hk m hm i hi
 
 
-/-- **SA-IS, proved fragment** (`…_partial`).  Full statement that is NOT proved here (SA-IS is covered by the
-sound-and-complete acceptance function `checkSA` on every run instead of by a model):
-
-    `saisModel ks = the unique sa with SuffixSorted ks sa`   for every dense integer text `ks` ending in a unique minimum,
-
-where `saisModel` mirrors `Sais::construct` (L/S typing, LMS naming, recursion on the reduced text, induced sorting).
-Proved: the first mechanism, `PosTypes::new` — in a text whose last symbol occurs nowhere else, a position is typed
-S exactly when its suffix is smaller than the next suffix (and the last position is S).  Together with
-`transform_sorted_isSA` (the integer text handed to SA-IS has the right order) this frames SA-IS from both sides. -/
+/-- **SA-IS, first mechanism** (kept from the earlier state, when it was the only proved fragment of SA-IS; the full
+statement — the model of `Sais::construct` equals the sorted suffix permutation — is now proved below:
+`sais_construct_sorted`, `sais_int_model_sorted`, `sais_model_sorted`).  `PosTypes::new`: in a text whose last symbol
+occurs nowhere else, a position is typed S exactly when its suffix is smaller than the next suffix (and the last
+position is S). -/
 theorem sais_postypes_partial (ks : List Nat)
     (hu : ∀ i, i + 1 < ks.length → ks.getD i 0 ≠ ks.getD (ks.length - 1) 0) (p : Nat) (hp : p < ks.length) :
     (PosTypes.posTypes ks)[p]? =
@@ -214,5 +211,143 @@ example :
     let ty := PosTypes.posTypes [71, 67, 67, 84, 84, 65, 65, 67, 65, 84, 84, 65, 84, 84, 65, 67, 71, 67, 67, 84, 65, 36]
     (List.range 22).filter (fun p => p ≠ 0 && ty.getD p false && !ty.getD (p - 1) true) = [1, 5, 8, 11, 14, 17, 21] := by
   decide
+
+/-! ## SA-IS itself: the mirror model `RbV/Model/Sais.lean` (run by the driver next to the implementation on every case)
+
+`Sais.Valid t` is what `Sais::construct` expects of its text: non-empty, the last symbol is the unique minimum, the
+alphabet is dense (`suffix_array_int` documents exactly this; `transform_text` establishes it). -/
+
+/-- **(a) `transform_text`** hands SA-IS a text it accepts, and the executable mirror (ranks looked up in the sorted
+alphabet) equals the specification-level transform, whose order is that of the property: sentinels get distinct
+ranks decreasing from left to right, below all other symbols, which keep their order (`Transform.transform_iso`). -/
+theorem sais_transform_text (t : List Nat) (hne : t ≠ []) (hmin : ∀ p, p < t.length → sentinelOf t ≤ t.getD p 0) :
+    Sais.transformText t = Transform.transformText t ∧ Sais.Valid (Transform.transformText t) ∧
+    (∀ p q, p < t.length → q < t.length →
+      ((Transform.transformText t).getD p 0 < (Transform.transformText t).getD q 0 ↔
+        keyAt t (t.count (sentinelOf t)) (Transform.rkAfter t) p < keyAt t (t.count (sentinelOf t)) (Transform.rkAfter t) q)) :=
+  ⟨Sais.transformText_eq t, Sais.valid_transformText t hne hmin, Transform.transform_iso t hne hmin⟩
+
+example : Sais.transformText [65, 36, 67, 36, 65, 36] = [3, 2, 4, 1, 3, 0] := by decide
+
+/-- **(b) first loop of `calc_lms_pos`**: `lms_pos` = exactly the LMS positions in ascending order, and
+`reduced_text_pos[r]` = number of LMS positions before `r`, for every LMS position `r`. -/
+theorem sais_lms_pos (ty : List Bool) (red : List Nat) (n : Nat) (hn : n ≤ red.length) :
+    (Sais.forUp n (Sais.collectStep ty) ([], red, 0)).1 = (List.range n).filter (Sais.isLms ty) ∧
+    (∀ r, r < n → Sais.isLms ty r = true →
+      (Sais.forUp n (Sais.collectStep ty) ([], red, 0)).2.1.getD r 0 = ((List.range r).filter (Sais.isLms ty)).length) :=
+  ⟨(Sais.collect_spec ty red n hn).1, (Sais.collect_spec ty red n hn).2.2.2.1⟩
+
+example : (Sais.forUp 9 (Sais.collectStep (Sais.tyOf [3, 2, 2, 4, 4, 1, 2, 1, 0])) ([], List.replicate 9 0, 0)).1 = [1, 5, 8] := by
+  decide
+
+/-- **(c) `init_bucket_start`**: for a dense text, `bucket_start[c]` = number of symbols smaller than `c`
+(prefix sums of the symbol counts, one bucket per symbol `0..max`). -/
+theorem bucket_start_spec (t : List Nat) (hd : ∀ c x, x ∈ t → c ≤ x → c ∈ t) :
+    Sais.initBucketStart t = (List.range (Sais.maxSucc t)).map (fun c => t.countP (fun x => decide (x < c))) :=
+  Sais.initBucketStart_eq t hd
+
+/-- **(c) `init_bucket_end`**: `bucket_end[c]` = (number of symbols ≤ `c`) − 1. -/
+theorem bucket_end_spec (t : List Nat) (hne : t ≠ []) (hd : ∀ c x, x ∈ t → c ≤ x → c ∈ t) :
+    Sais.initBucketEnd (Sais.initBucketStart t) t.length =
+      (List.range (Sais.maxSucc t)).map (fun c => t.countP (fun x => decide (x < c + 1)) - 1) :=
+  Sais.initBucketEnd_eq t hne hd
+
+example : Sais.initBucketStart [3, 2, 2, 4, 4, 1, 2, 1, 0] = [0, 1, 3, 6, 7] ∧
+    Sais.initBucketEnd (Sais.initBucketStart [3, 2, 2, 4, 4, 1, 2, 1, 0]) 9 = [0, 2, 5, 6, 8] := by decide
+
+/-- **(d) `calc_pos` places every position exactly once**, whatever the order of the LMS positions in `lms_pos`
+(every LMS position once): L pass and S pass invariants (bucket pointers stay inside their areas, no slot is written
+twice, no undefined entry is read by the S pass, every L-type and S-type position is reached). -/
+theorem sais_calc_pos_perm (t : List Nat) (hv : Sais.Valid t) (lms : List Nat) (hl : Sais.LmsList t lms) :
+    (Sais.calcPosRun t (Sais.tyOf t) lms).pos.Perm (List.range t.length) :=
+  Sais.calcPos_perm t hv lms hl
+
+/-- **(d) `model_is_perm`**: the model's output is a permutation of `0..n`. -/
+theorem model_is_perm (t : List Nat) (hne : t ≠ []) (hmin : ∀ p, p < t.length → sentinelOf t ≤ t.getD p 0) :
+    (Sais.suffixArray t).Perm (List.range t.length) := by
+  obtain ⟨B, rk, _, hp, _⟩ := Sais.suffixArray_isSA t hne hmin
+  rw [length_keyText] at hp
+  exact hp
+
+/-- **(e) `induced_sort_correct`**: `calc_pos` run on the LMS positions sorted by their suffixes returns the sorted
+suffix permutation (L-suffixes are placed in order from the left end of their buckets, then S-suffixes from the right
+end).  The general form (`Sais.induced_sort`) is for any relation satisfying the induced-sorting axioms; it is also
+used with the order of the typed LMS substrings for the first call. -/
+theorem induced_sort_correct (t : List Nat) (hv : Sais.Valid t) (lms : List Nat)
+    (hl : Sais.LmsList t lms) (hs : lms.Pairwise (fun p q => lexLt (t.drop p) (t.drop q))) :
+    SuffixSorted t (Sais.calcPosRun t (Sais.tyOf t) lms).pos :=
+  Sais.induced_sort_suffix t hv lms ⟨hl, hs⟩
+
+set_option maxRecDepth 100000 in
+example : (Sais.calcPosRun [3, 2, 2, 4, 4, 1, 2, 1, 0] (Sais.tyOf [3, 2, 2, 4, 4, 1, 2, 1, 0]) [8, 5, 1]).pos
+    = [8, 7, 5, 6, 1, 2, 0, 4, 3] := by decide
+
+/-- **(f) `lms_substring_eq`** decides equality of the typed LMS substrings (symbols with their L/S type from one LMS
+position to the next): comparing symbols and LMS flags only, as the code does, is enough. -/
+theorem sais_lms_substring_eq (t : List Nat) (hv : Sais.Valid t) (i j : Nat)
+    (hi : Sais.isLms (Sais.tyOf t) i = true) (hj : Sais.isLms (Sais.tyOf t) j = true) (hij : i ≠ j) :
+    Sais.lmsSubEq t (Sais.tyOf t) i j = true ↔ Sais.key t i = Sais.key t j :=
+  Sais.lmsSubEq_iff t hv i j hi hj hij
+
+/-- **(f) the first call of `calc_pos`** (LMS positions in text order) sorts all positions by their typed LMS
+substring, and the reduced text written by the naming loop compares position-wise like these substrings … -/
+theorem sais_first_pass (t : List Nat) (hv : Sais.Valid t) (h2 : 2 ≤ t.length) :
+    (Sais.pos1 t).Perm (List.range t.length) ∧
+    (Sais.pos1 t).Pairwise (fun x y => ¬ lexLt (Sais.key t y) (Sais.key t x)) :=
+  ⟨Sais.sdone_perm (Sais.first_pass t hv h2), Sais.pairwise_of_sdone (Sais.first_pass t hv h2)⟩
+
+/-- **(f)** … so that the suffixes of the reduced text compare exactly like the suffixes of the text at the LMS
+positions (the reduced text being any list of labels that compares like the typed LMS substrings). -/
+theorem sais_reduced_order (t : List Nat) (hv : Sais.Valid t) (h2 : 2 ≤ t.length) (red : List Nat)
+    (hlen : red.length = (Sais.lmsBelow (Sais.tyOf t) t.length).length)
+    (hord : ∀ a b, a < red.length → b < red.length →
+      (red.getD a 0 < red.getD b 0 ↔
+        lexLt (Sais.key t ((Sais.lmsBelow (Sais.tyOf t) t.length).getD a 0))
+          (Sais.key t ((Sais.lmsBelow (Sais.tyOf t) t.length).getD b 0))) ∧
+      (red.getD a 0 = red.getD b 0 ↔
+        Sais.key t ((Sais.lmsBelow (Sais.tyOf t) t.length).getD a 0) =
+          Sais.key t ((Sais.lmsBelow (Sais.tyOf t) t.length).getD b 0)))
+    (a b : Nat) (ha : a < red.length) (hb : b < red.length) :
+    (lexLt (red.drop a) (red.drop b) ↔
+      lexLt (t.drop ((Sais.lmsBelow (Sais.tyOf t) t.length).getD a 0))
+        (t.drop ((Sais.lmsBelow (Sais.tyOf t) t.length).getD b 0))) :=
+  Sais.lms_suffix_order t hv h2 red hlen hord a b ha hb
+
+/-- **(f) `calc_lms_pos` / `sort_lms_suffixes`**: afterwards `lms_pos` holds every LMS position exactly once, sorted by
+suffix — by naming alone when all LMS substrings differ, else through the recursion on the reduced text (which is
+again a text `Sais::construct` accepts, of less than the length). -/
+theorem sais_lms_sorted (f : Nat) (t : List Nat) (hv : Sais.Valid t) (hn : t.length ≤ f + 1) (s : Sais.St)
+    (hs : t.length ≤ s.redPos.length) :
+    Sais.LmsList t (Sais.calcLmsPos (Sais.construct f) t (Sais.tyOf t) s).lmsPos ∧
+    (Sais.calcLmsPos (Sais.construct f) t (Sais.tyOf t) s).lmsPos.Pairwise (fun p q => lexLt (t.drop p) (t.drop q)) :=
+  Sais.calcLmsPos_sorted f (fun t' s' hv' hf hs' => Sais.construct_sorted f t' s' hv' hf hs') t hv hn s hs
+
+/-- **(g) `Sais::construct` sorts**: for every text it accepts, with fuel ≥ length and `reduced_text_pos` at least as
+long as the text (as `Sais::new(n)` allocates it), `pos` is the sorted suffix permutation. -/
+theorem sais_construct_sorted (f : Nat) (t : List Nat) (s : Sais.St) (hv : Sais.Valid t) (hf : t.length ≤ f)
+    (hs : t.length ≤ s.redPos.length) : SuffixSorted t (Sais.construct f t s).pos :=
+  Sais.construct_sorted f t s hv hf hs
+
+/-- **(g) `suffix_array_int`**: the model's output is accepted by `checkSorted` — it is the (unique) sorted suffix
+permutation — for every integer text ending in its unique minimum with a dense alphabet. -/
+theorem sais_int_model_sorted (t : List Nat) (hv : Sais.Valid t) : checkSorted t (Sais.suffixArrayInt t) = true :=
+  (checkSorted_iff t _).mpr (Sais.suffixArrayInt_sorted t hv)
+
+example : Sais.Valid [3, 2, 2, 4, 4, 1, 2, 1, 0] := Sais.valid_of_validB _ (by decide)
+set_option maxRecDepth 100000 in
+example : Sais.suffixArrayInt [3, 2, 2, 4, 4, 1, 2, 1, 0] = [8, 7, 5, 6, 1, 2, 0, 4, 3] := by decide
+
+/-- **(g) `sais_model_sorted`**: for every non-empty byte text whose last symbol is its smallest one (the `assert!` of
+`sentinel_count`), the mirror model of `suffix_array` returns an array that the acceptance function accepts, i.e. that
+satisfies the property C03 (`checkSA_iff`): a permutation of all positions, sorted under one consistent order of the
+sentinel occurrences.  No size bound, any number of sentinels, any recursion depth. -/
+theorem sais_model_sorted (t : List Nat) (hne : t ≠ []) (hmin : ∀ p, p < t.length → sentinelOf t ≤ t.getD p 0) :
+    checkSA t (Sais.suffixArray t) = true :=
+  (checkSA_iff t _ hne).mpr (Sais.suffixArray_isSA t hne hmin)
+
+-- two reads with equal LMS substrings across sentinels: one recursion level
+set_option maxRecDepth 100000 in
+example : Sais.suffixArray [98, 97, 110, 97, 110, 97, 36, 98, 97, 110, 97, 110, 97, 36] =
+    [13, 6, 12, 5, 10, 3, 8, 1, 7, 0, 11, 4, 9, 2] := by decide
 
 end RbV.Thm.C03
